@@ -37,7 +37,7 @@ CLAIMS["C02"] = {
             "unencodable iff some string is not valid UTF-8 (C02_metadata_exact, C02_metadata_unencodable_iff). Tied to the code by the metadata world (real grpc-go on "
             "bufconn: all 17 codes, details, multi-valued / binary / absent metadata, call options, per-RPC credentials), by " + _W1 + " " + _CLI + " and by the race "
             "stress for the publication order of trailers (D4). Open findings D8 (non-UTF-8 '-bin' values or status messages kill the tunnel) and D12 (a request larger than the window "
-            "to a handler that rejects without reading it: Invoke reports a bare 'context canceled') are reported as KNOWN-FINDING.",
+            "to a handler that rejects without reading it: Invoke reports a bare 'context canceled') are reported as KNOWN-FINDING. Result publication below quiescence (L-atomic model TunnelModel/Publish.lean: any number of racing finishStream calls, a reader in RecvMsg, an observer calling Trailer(); EVERY schedule): whoever has obtained the terminal result reads exactly the winner's trailers, from Trailer() and from every grpc.Trailer target, now and in every continuation (C02_reader_sees_trailers); result, trailers and targets belong to one unique completion (C02_terminal_result_and_trailers_of_one_completion); Trailer() is nil until doneSignal is closed and the winner's ever after (C02_trailer_nil_before_end); counter-model of the old order, defect D4 (C02_old_order_reader_misses_trailers).",
     "design_ref": "DESIGN.md A2 (C02), A4 (D4, D5, D8, D12)",
     "note": "Trusted: Lean kernel; Metadata.lean's UTF-8 predicate equals protobuf-go's (compared on every run by TestPureUTF8); grpc-go. Status details are opaque to "
             "the model (carried by the correspondence only). PARTIAL where the property demands delivery of non-UTF-8 values: the code does not do it (D8, recorded, not repaired: wire-format change).",
